@@ -31,6 +31,12 @@ def strList (j : Json) (k : String) : R (List String) := do asStrList (← fld j
 def natListList (j : Json) (k : String) : R (List (List Nat)) := do asNatListList (← fld j k)
 def intListList (j : Json) (k : String) : R (List (List Int)) := do asIntListList (← fld j k)
 
+def optStrList (j : Json) (k : String) : R (Option (List String)) :=
+  match j.getObjVal? k with
+  | .ok .null => pure none
+  | .ok v => do return some (← asStrList v)
+  | .error _ => pure none
+
 def ofNatList (l : List Nat) : Json := Json.arr (l.map (fun n => toJson n)).toArray
 def ofIntList (l : List Int) : Json := Json.arr (l.map (fun n => toJson n)).toArray
 def ofStrList (l : List String) : Json := Json.arr (l.map Json.str).toArray
